@@ -6,10 +6,18 @@ their preservation by the `SymMap` mutators.
   allocation table or a scope is below the size of the arena it indexes — the Rust
   `expect("invalid … id")` sites (`[id]!` in the model) are never reached with a bad id;
 * loc-validity (`LocsOK`): every stored location (define locs, hook log, diagnostics) is the range
-  of a node or token of the tree of a workspace file (C17).
+  of a node or token of the tree of a workspace file (C17);
+* names (`NamesOK`, C06): the hook log counts allocations like `gidToSym`, references point to
+  earlier allocations, every `define` / `reference` sits on a token whose text is the name of the
+  symbol (`HookLogOK`); every template argument, field, variable, defset, multiclass — and every
+  record a name map knows — was logged under its name (`Named`); the keys of the name maps, of the
+  per-record / per-multiclass maps and of the scope variable maps (`ScopeNm`) are the names of the
+  entries they point to.  `Grow` also says that existing entries keep their name and allocation
+  index and that the log is only appended to (`GrowN`).
 -/
 import TgModel.Lemmas.IdeTree
 import TgModel.Lemmas.IdeMonad
+import TgModel.Lemmas.IdeNames
 
 namespace Tg
 namespace Ide
@@ -244,6 +252,134 @@ structure SymMap.FilesOK (sm : SymMap) : Prop where
   mcTas : ∀ m ∈ sm.multiclassList.toList, ∀ e ∈ m.nameToTemplateArg.toList,
     (sm.templateArg e.2).defineLoc.file = m.defineLoc.file
 
+/-! ### names and the hook log -/
+
+/-- the name of a symbol (`Handlers.symbolName`) -/
+def SymMap.symName (sm : SymMap) : SymbolId → String
+  | .record i => (sm.record i).name
+  | .templateArgument i => (sm.templateArg i).name
+  | .recordField i => (sm.recordField i).name
+  | .var i => (sm.var i).name
+  | .defset i => (sm.defset i).name
+  | .multiclass i => (sm.multiclass i).name
+  | .defm i => (sm.defm i).name
+
+/-- the hook log has a (non-anonymous) `define` for `s`, under the name stored in the arena -/
+def SymMap.Named (sm : SymMap) (s : SymbolId) : Prop :=
+  NamedGid sm.ops.toList (sm.gidOf s) (sm.symName s).toList
+
+structure SymMap.GrowN (a b : SymMap) : Prop where
+  nm : ∀ s, SymOK a.sizes s → b.symName s = a.symName s
+  gid : ∀ s, SymOK a.sizes s → b.gidOf s = a.gidOf s
+  ops : ∃ more, b.ops.toList = a.ops.toList ++ more
+
+theorem SymMap.GrowN.refl (a : SymMap) : SymMap.GrowN a a := ⟨fun _ _ => rfl, fun _ _ => rfl, [], by simp⟩
+
+theorem SymMap.GrowN.trans {a b c : SymMap} (h1 : SymMap.GrowN a b) (hs : a.sizes ≤ b.sizes) (h2 : SymMap.GrowN b c) :
+    SymMap.GrowN a c := by
+  refine ⟨fun s h => (h2.nm s (h.mono hs)).trans (h1.nm s h), fun s h => (h2.gid s (h.mono hs)).trans (h1.gid s h), ?_⟩
+  obtain ⟨m1, e1⟩ := h1.ops
+  obtain ⟨m2, e2⟩ := h2.ops
+  exact ⟨m1 ++ m2, by rw [e2, e1, List.append_assoc]⟩
+
+theorem SymMap.Named.grow {a b : SymMap} {s : SymbolId} (h : a.Named s) (hs : SymOK a.sizes s) (hg : SymMap.GrowN a b) :
+    b.Named s := by
+  unfold SymMap.Named at *
+  obtain ⟨m, e⟩ := hg.ops
+  rw [hg.nm s hs, hg.gid s hs, e]
+  exact h.append m
+
+/-- the hook log, by itself: allocation indices are counted by `gidToSym`, references point to
+allocated symbols, and every `define` / `reference` sits on a token whose text is the symbol's name -/
+structure HookLogOK (ws : Workspace) (ops : List Tg.SymbolMap.Op) (n : Nat) : Prop where
+  cnt : (Tg.SymbolMap.allocs ops).length = n
+  rv : Tg.SymbolMap.RefsValid ops 0
+  defTok : ∀ name loc, Tg.SymbolMap.Op.define name loc ∈ ops → ∃ nm : String, nm.toList = name ∧ TokAt ws loc nm
+  refTok : ∀ g loc, Tg.SymbolMap.Op.reference g loc ∈ ops → ∃ nm : String, NamedGid ops g nm.toList ∧ TokAt ws loc nm
+
+theorem HookLogOK.define {ws : Workspace} {ops : List Tg.SymbolMap.Op} {n : Nat} (h : HookLogOK ws ops n)
+    {nm : String} {loc : Tg.SymbolMap.Loc} (ht : TokAt ws loc nm) :
+    HookLogOK ws (ops ++ [.define nm.toList loc]) (n + 1) := by
+  refine ⟨by simp [allocs_append, allocs_define, h.cnt], ?_, ?_, ?_⟩
+  · rw [RefsValid_append]; exact ⟨h.rv, by simp [Tg.SymbolMap.RefsValid]⟩
+  · intro name l hm
+    rcases List.mem_append.mp hm with hm | hm
+    · exact h.defTok name l hm
+    · simp only [List.mem_singleton, Tg.SymbolMap.Op.define.injEq] at hm
+      obtain ⟨rfl, rfl⟩ := hm
+      exact ⟨nm, rfl, ht⟩
+  · intro g l hm
+    rcases List.mem_append.mp hm with hm | hm
+    · obtain ⟨nm', h1, h2⟩ := h.refTok g l hm
+      exact ⟨nm', h1.append _, h2⟩
+    · simp at hm
+
+theorem HookLogOK.defineAnon {ws : Workspace} {ops : List Tg.SymbolMap.Op} {n : Nat} (h : HookLogOK ws ops n)
+    (name : List Char) (loc : Tg.SymbolMap.Loc) :
+    HookLogOK ws (ops ++ [.defineAnon name loc]) (n + 1) := by
+  refine ⟨by simp [allocs_append, allocs_defineAnon, h.cnt], ?_, ?_, ?_⟩
+  · rw [RefsValid_append]; exact ⟨h.rv, by simp [Tg.SymbolMap.RefsValid]⟩
+  · intro name l hm
+    rcases List.mem_append.mp hm with hm | hm
+    · exact h.defTok name l hm
+    · simp at hm
+  · intro g l hm
+    rcases List.mem_append.mp hm with hm | hm
+    · obtain ⟨nm', h1, h2⟩ := h.refTok g l hm
+      exact ⟨nm', h1.append _, h2⟩
+    · simp at hm
+
+theorem HookLogOK.reference {ws : Workspace} {ops : List Tg.SymbolMap.Op} {n : Nat} (h : HookLogOK ws ops n)
+    {g : Nat} {nm : String} {loc : Tg.SymbolMap.Loc} (hn : NamedGid ops g nm.toList) (ht : TokAt ws loc nm) :
+    HookLogOK ws (ops ++ [.reference g loc]) n := by
+  have hg : g < n := by
+    obtain ⟨l, hl⟩ := hn
+    have := (List.getElem?_eq_some_iff.mp hl).1
+    rw [h.cnt] at this; exact this
+  refine ⟨by simp [allocs_append, allocs_reference, h.cnt], ?_, ?_, ?_⟩
+  · rw [RefsValid_append]; exact ⟨h.rv, by simp [Tg.SymbolMap.RefsValid, h.cnt, hg]⟩
+  · intro name l hm
+    rcases List.mem_append.mp hm with hm | hm
+    · exact h.defTok name l hm
+    · simp at hm
+  · intro g' l hm
+    rcases List.mem_append.mp hm with hm | hm
+    · obtain ⟨nm', h1, h2⟩ := h.refTok g' l hm
+      exact ⟨nm', h1.append _, h2⟩
+    · simp only [List.mem_singleton, Tg.SymbolMap.Op.reference.injEq] at hm
+      obtain ⟨rfl, rfl⟩ := hm
+      exact ⟨nm, hn.append _, ht⟩
+
+/-- a fresh allocation index is named by the `define` that is appended for it -/
+theorem NamedGid.new {ops : List Tg.SymbolMap.Op} {n : Nat} (h : (Tg.SymbolMap.allocs ops).length = n)
+    (name : List Char) (loc : Tg.SymbolMap.Loc) : NamedGid (ops ++ [.define name loc]) n name := by
+  refine ⟨loc, ?_⟩
+  rw [allocs_append, allocs_define, ← h]
+  simp
+
+/-- names: every template argument, field, variable, defset and multiclass — and every record that
+a name map knows — was logged by a `define` under its name; the keys of the name maps are the names
+of the entries they point to -/
+structure SymMap.NamesOK (ws : Workspace) (sm : SymMap) : Prop where
+  log : HookLogOK ws sm.ops.toList sm.gidToSym.size
+  tas : ∀ i, i < sm.templateArgList.size → sm.Named (.templateArgument i)
+  flds : ∀ i, i < sm.recordFieldList.size → sm.Named (.recordField i)
+  vars : ∀ i, i < sm.variableList.size → sm.Named (.var i)
+  dss : ∀ i, i < sm.defsetList.size → sm.Named (.defset i)
+  mcs : ∀ i, i < sm.multiclassList.size → sm.Named (.multiclass i)
+  cls : ∀ (k : String) (v : Nat), sm.nameToClass[k]? = some v → (sm.record v).name = k ∧ sm.Named (.record v)
+  defs : ∀ (k : String) (v : Nat), sm.nameToDef[k]? = some v → (sm.record v).name = k ∧ sm.Named (.record v)
+  mcn : ∀ (k : String) (v : Nat), sm.nameToMulticlass[k]? = some v → (sm.multiclass v).name = k
+  dsn : ∀ (k : String) (v : Nat), sm.nameToDefset[k]? = some v → (sm.defset v).name = k
+  recTas : ∀ r ∈ sm.recordList.toList, ∀ e ∈ r.nameToTemplateArg.toList, (sm.templateArg e.2).name = e.1
+  recFlds : ∀ r ∈ sm.recordList.toList, ∀ e ∈ r.nameToRecordField.toList, (sm.recordField e.2).name = e.1
+  mcTas : ∀ m ∈ sm.multiclassList.toList, ∀ e ∈ m.nameToTemplateArg.toList, (sm.templateArg e.2).name = e.1
+
+/-- the variables a scope knows are stored under their names -/
+structure ScopeNm (sm : SymMap) (s : Scope) : Prop where
+  vars : ∀ (k : String) (v : Nat), s.nameToVariable[k]? = some v → (sm.var v).name = k
+  kind : ∀ (nm : String) (v : Nat), s.kind = .foreach nm v → (sm.var v).name = nm
+
 /-- the symbol map only grows: arenas get longer, existing entries keep their define location (and
 records their kind) -/
 structure SymMap.Grow (a b : SymMap) : Prop where
@@ -256,10 +392,12 @@ structure SymMap.Grow (a b : SymMap) : Prop where
   dsLoc : ∀ id, id < a.defsetList.size → (b.defset id).defineLoc = (a.defset id).defineLoc
   mcLoc : ∀ id, id < a.multiclassList.size → (b.multiclass id).defineLoc = (a.multiclass id).defineLoc
   dmLoc : ∀ id, id < a.defmList.size → (b.defm id).defineLoc = (a.defm id).defineLoc
+  /-- existing entries keep their name and allocation index, the hook log is only appended to -/
+  n : SymMap.GrowN a b
 
 theorem SymMap.Grow.refl (a : SymMap) : SymMap.Grow a a :=
   ⟨Sizes.le_refl _, fun _ _ => rfl, fun _ _ => rfl, fun _ _ => rfl, fun _ _ => rfl, fun _ _ => rfl,
-   fun _ _ => rfl, fun _ _ => rfl, fun _ _ => rfl⟩
+   fun _ _ => rfl, fun _ _ => rfl, fun _ _ => rfl, SymMap.GrowN.refl a⟩
 
 theorem SymMap.Grow.trans {a b c : SymMap} (h1 : SymMap.Grow a b) (h2 : SymMap.Grow b c) : SymMap.Grow a c where
   sizes := Sizes.le_trans h1.sizes h2.sizes
@@ -271,6 +409,7 @@ theorem SymMap.Grow.trans {a b c : SymMap} (h1 : SymMap.Grow a b) (h2 : SymMap.G
   dsLoc id h := (h2.dsLoc id (Nat.lt_of_lt_of_le h h1.sizes.dss)).trans (h1.dsLoc id h)
   mcLoc id h := (h2.mcLoc id (Nat.lt_of_lt_of_le h h1.sizes.mcs)).trans (h1.mcLoc id h)
   dmLoc id h := (h2.dmLoc id (Nat.lt_of_lt_of_le h h1.sizes.dms)).trans (h1.dmLoc id h)
+  n := h1.n.trans h1.sizes h2.n
 
 /-- a scope kind that is not the scope of a class: only a `def` can leave its record scope behind -/
 def DefOnly (sm : SymMap) (k : ScopeKind) : Prop :=
@@ -296,6 +435,8 @@ structure Inv (c : IndexCtx) : Prop where
   locs : c.symbolMap.LocsOK c.ws
   files : c.symbolMap.FilesOK
   diags : ∀ d ∈ c.diagnostics.toList, NodeLocR c.ws d.location
+  names : c.symbolMap.NamesOK c.ws
+  scopesNm : ∀ s ∈ c.scopes.scopes, ScopeNm c.symbolMap s
 
 structure Ext (c c' : IndexCtx) : Prop where
   ws : c'.ws = c.ws
@@ -385,6 +526,47 @@ theorem LocIn.ext {c0 c1 : IndexCtx} (he : Ext c0 c1) {loc : FileRange} (h : Loc
   obtain ⟨hf, t, ht⟩ := h
   exact ⟨by rw [he.trace]; exact hf, t, by rw [he.ws]; exact ht⟩
 
+/-- `loc` is the range of a token of the current file of `c0`, with text `nm` -/
+def TokIn (c0 : IndexCtx) (loc : FileRange) (nm : String) : Prop :=
+  c0.fileTrace.head? = some loc.file ∧ ∃ t, Desc (c0.ws.tree loc.file) t ∧ t.isToken = true ∧
+    t.start = loc.start ∧ t.stop = loc.stop ∧ t.text = nm
+
+theorem TokIn.locIn {c0 : IndexCtx} {loc : FileRange} {nm : String} (h : TokIn c0 loc nm) : LocIn c0 loc := by
+  obtain ⟨hf, t, hd, _, h1, h2, _⟩ := h
+  exact ⟨hf, t, hd, h1, h2⟩
+
+theorem TokIn.ext {c0 c1 : IndexCtx} (he : Ext c0 c1) {loc : FileRange} {nm : String} (h : TokIn c0 loc nm) :
+    TokIn c1 loc nm := by
+  obtain ⟨hf, t, ht⟩ := h
+  exact ⟨by rw [he.trace]; exact hf, t, by rw [he.ws]; exact ht⟩
+
+theorem TokIn.tokAt {c0 c : IndexCtx} (hp : Post c0 c) {loc : FileRange} {nm : String} (h : TokIn c0 loc nm) :
+    TokAt c.ws loc.toLoc nm := by
+  obtain ⟨hf, t, ht⟩ := h
+  have hmem : loc.file ∈ c.fileTrace := by
+    rw [hp.ext.trace]
+    exact List.mem_of_head? hf
+  exact ⟨hp.inv.trace _ hmem, t, by rw [hp.ext.ws]; exact ht⟩
+
+theorem TokIn.sameBase' {c c1 : IndexCtx} {loc : FileRange} {nm : String} (hws : c1.ws = c.ws)
+    (htr : c1.fileTrace = c.fileTrace) (h : TokIn c loc nm) : TokIn c1 loc nm := by
+  obtain ⟨hf, t, ht⟩ := h
+  exact ⟨by rw [htr]; exact hf, t, by rw [hws]; exact ht⟩
+
+theorem ScopeNm.grow {a b : SymMap} {s : Scope} (h : ScopeNm a s) (hok : ScopeOK a.sizes s) (hg : SymMap.GrowN a b) :
+    ScopeNm b s := by
+  refine ⟨fun k v hv => ?_, fun nm v hk => ?_⟩
+  · have := hg.nm (.var v) (hok.vars k v hv)
+    simp only [SymMap.symName] at this
+    rw [this]; exact h.vars k v hv
+  · have hv : v < a.sizes.vars := by
+      have := hok.kind
+      rw [hk] at this
+      exact this
+    have := hg.nm (.var v) hv
+    simp only [SymMap.symName] at this
+    rw [this]; exact h.kind nm v hk
+
 theorem LocIn.nodeLoc {c0 c : IndexCtx} (hp : Post c0 c) {loc : FileRange} (h : LocIn c0 loc) :
     NodeLocR c.ws loc := by
   obtain ⟨hf, t, ht⟩ := h
@@ -392,6 +574,9 @@ theorem LocIn.nodeLoc {c0 c : IndexCtx} (hp : Post c0 c) {loc : FileRange} (h : 
     rw [hp.ext.trace]
     exact List.mem_of_head? hf
   exact ⟨hp.inv.trace _ hmem, t, by rw [hp.ext.ws]; exact ht⟩
+
+theorem TokIn.nodeLoc {c0 c : IndexCtx} (hp : Post c0 c) {loc : FileRange} {nm : String} (h : TokIn c0 loc nm) :
+    NodeLocR c.ws loc := LocIn.nodeLoc hp h.locIn
 
 theorem RangeIn.nodeLoc {c0 c : IndexCtx} (hp : Post c0 c) {rg : Nat × Nat} (h : RangeIn c0 rg) {f : Nat}
     (hf : c.fileTrace.head? = some f) : NodeLoc c.ws f rg.1 rg.2 := by
